@@ -2153,6 +2153,38 @@ def rule_same_finder(prog):
         ok_tk = r if r in (True, False) else None
         out.add("references::" + fn, "occurrences are converted against the whole token vector", ok_tk,
                 c.loc(b["sp"]), "")
+    # the occurrences of a *global* entity (a procedure is called in a call statement, a type is named in a type position - neither can be
+    # hidden by a parameter or variable of the same name) are collected without consulting a local table: the collector that an
+    # `Entry::Procedure` / `Entry::Type` arm hands the name to looks at every procedure
+    ENTRY_ = "spl_frontend::table::Entry::"
+    n_glob, bad_glob = 0, None
+    for b in c.bodies:
+        if not b["p"].startswith("lsp4spl::features::references") or "/tests" in c.file_of(b["sp"]):
+            continue
+        for m_ in hir.nodes(b["body"], "Match"):
+            for a_ in m_["arms"]:
+                vs_ = set(hir.pat_variants_all(a_["pat"]))
+                if not vs_ or not vs_ <= {ENTRY_ + "Procedure", ENTRY_ + "Type"}:
+                    continue
+                for call in hir.nodes(a_["body"], "Call"):
+                    hb = hir.local_callee_body(prog, call)
+                    if hb is None or hb["_crate"] is not c or "sig_out" not in hb or "Vec<" not in c.tstr(hb["sig_out"]):
+                        continue
+                    n_glob += 1
+                    for x in hir.nodes_deep(prog, hb["body"], 3, crate=c):
+                        if x.get("k") in ("Call", "MethodCall") and last(hir.callee(x) or "") == "get_local_table":
+                            bad_glob = bad_glob or (hb, x)
+                        if x.get("k") == "MethodCall" and x["m"] == "lookup" and "LocalTable" in (
+                                c.tstr(hir.strip_ref(x["recv"])["t"]) + "".join(c.tstr(ad_["to"]) for ad_ in hir.strip_ref(x["recv"]).get("adj") or [])):
+                            bad_glob = bad_glob or (hb, x)
+                        if x.get("k") == "Field" and x["name"] == "local_table":
+                            bad_glob = bad_glob or (hb, x)
+    if n_glob:
+        out.add("references", "the occurrences of a procedure / type are collected without consulting a local table", bad_glob is None,
+                c.loc(bad_glob[1]["sp"]) if bad_glob else "", ("%s asks a local table; " % bad_glob[0]["d"] if bad_glob else "") +
+                "a parameter or variable does not hide a procedure or a type (calls and type positions are syntactically apart): "
+                "for `proc count(count: int)` the collector skips the whole procedure, header name included - references from a call answer "
+                "nothing, rename leaves the declaration as it was", ("globalsearch",))
     out.add("references", "find and rename use the same finder with the same arguments",
             (len(sigs["find"]) == 1 and sigs["find"] == sigs["rename"]) if (sigs["find"] or sigs["rename"]) else None, "",
             "find: %s rename: %s" % (sigs["find"], sigs["rename"]))
